@@ -276,5 +276,5 @@ func ruleR05_4(c *Check) {
 	}
 	r.Check(sawEq, vf, "Valid compares for equality when prefixIsKey is set", nil, "Iterator.Valid has no bytes.Equal(item.key, opt.Prefix) branch for key iterators")
 	vp := w.F("badger.Iterator.ValidForPrefix")
-	r.Exists(len(vp.Sites(selCallName(w, "badger.Iterator.Valid"))) == 1, vp, "ValidForPrefix includes Valid", nil, "ValidForPrefix does not call Valid")
+	r.Exists(len(vp.Sites(selCallName(w, "badger.Iterator.Valid"))) >= 1, vp, "ValidForPrefix includes Valid", nil, "ValidForPrefix does not call Valid")
 }
